@@ -285,7 +285,64 @@ func C16Scenario() *Scenario {
 		w.Cfg["policy"] = pol.Name
 		w.Stages = []Stage{
 			{Name: "chaos", Policy: pol, Steps: 150 + 100*t.Pick(3, "len")},
-			{Name: "drain", Quiet: true, CheckOnBudget: true, MaxSteps: 4000, Do: func(w *World) { b.Left = 0 }, Check: func(w *World) *Violation { return c16Oracle(w, ds) }},
+			{Name: "drain", Quiet: true, CheckOnBudget: true, MaxSteps: 4000, Do: func(w *World) { b.Left = 0; cfgChanges = 0 }, Check: func(w *World) *Violation {
+				if v := c16Oracle(w, ds); v != nil {
+					return v
+				}
+				if w.budget {
+					return nil // (decorators that undo each other's work never come to rest)
+				}
+				return c16Applied(w, ds)
+			}},
 		}
 	}}
+}
+
+// c16Applied: at rest, every selected live target carries what its decorators' answers name
+// (a non-null value present, a null one absent). The answers are a pure function of the target.
+func c16Applied(w *World, ds *DSetup) *Violation {
+	for _, p := range ds.Targets {
+		obj := p.Get(w)
+		if obj == nil || metaRO(obj)["deletionTimestamp"] != nil {
+			continue
+		}
+		for _, cfg := range ds.Cfgs {
+			if !cfg.Selects(p.Res, obj) {
+				continue
+			}
+			prog := ds.Progs[cfg.Name]
+			if prog == nil || prog.Sync == nil {
+				continue
+			}
+			resp := prog.Sync(Object{"object": deepCopy(obj), "attachments": Object{}})
+			for field, get := range map[string]func(Object) map[string]string{"labels": labelsOf, "annotations": annotationsOf} {
+				named := getMap(resp, field)
+				// two decorators may name the same key: whoever wrote last wins; only keys that
+				// every selecting decorator names identically are judged
+				agreed := true
+				for _, other := range ds.Cfgs {
+					if other != cfg && other.Selects(p.Res, obj) && ds.Progs[other.Name] != nil {
+						o2 := ds.Progs[other.Name].Sync(Object{"object": deepCopy(obj), "attachments": Object{}})
+						if jsonString(getMap(o2, field)) != jsonString(named) {
+							agreed = false
+						}
+					}
+				}
+				if !agreed {
+					continue
+				}
+				have := get(obj)
+				for _, k := range sortedKeys(named) {
+					want := named[k]
+					got, has := have[k]
+					if (want == nil && has) || (want != nil && (!has || got != want)) {
+						w.Probe("c16:named-key-not-applied")
+						return &Violation{Prop: "C16", Class: "named-key-not-applied", Sig: ds.Sig,
+							Detail: fmt.Sprintf("decorator %s, %s %s/%s at rest: the answer names %s %q = %s, the target has %q (present: %v)", cfg.Name, p.Res.Kind, p.NS, p.Name, field, k, jsonString(want), got, has)}
+					}
+				}
+			}
+		}
+	}
+	return nil
 }
